@@ -199,7 +199,7 @@ CLAIMS['C10'] = {
              "earlier extern value can panic first when u8 is missing). The global iff (acyclic and defined <=> accepted) is decided on the "
              "implementation against an independent fixed-point analysis of generated dependency graphs (chains to depth 12, cycles, "
              "undefined names in 8 positions), including the exact set named in the error and the presence of every item and field."),
-    'note': COMMON_NOTE + "Props/C10Global.lean: defer_has_cause (every deferred attempt has a cause: an undefined name, an unresolved by-value dependency, or a size beyond usize – nothing else defers), stuck_has_cause / case_stuck_has_cause (when the build gives up every listed item waits on an undefined name, an overflow, or on another LISTED item: the stuck set is closed), accepted_defined_acyclic_novft (accepted => all names defined and by-value embedding acyclic) and acyclic_defined_not_stuck_novft(_partial) (defined and acyclic => not stuck, except for sizes beyond usize) on the vftable-free fragment; the unrestricted converse is REFUTED in Lean (`type T { a: [u64; 2^61] }` is answered `will not terminate` because the overflow is treated as not-yet-known) and NOT PROVED with vftable blocks. Known open finding shared with C09 (generated vftable in a signature).",
+    'note': COMMON_NOTE + "Props/C10Global.lean: defer_has_cause (every deferred attempt has a cause: an undefined name, an unresolved by-value dependency, or a size beyond usize – nothing else defers), stuck_has_cause / case_stuck_has_cause (when the build gives up every listed item waits on an undefined name, an overflow, or on another LISTED item: the stuck set is closed), accepted_defined_acyclic_novft (accepted => all names defined and by-value embedding acyclic) and acyclic_defined_not_stuck_novft(_partial) (defined and acyclic => not stuck, except for sizes beyond usize) on the vftable-free fragment and, in Props/C10GlobalVft.lean, WITH vftable blocks under NoGenRefs (acyclic_defined_not_stuck_nogenref(_partial), accepted_defined_acyclic_nogenref and their case-level forms); the unrestricted converse is REFUTED in Lean (`type T { a: [u64; 2^61] }` is answered `will not terminate` because the overflow is treated as not-yet-known) and false for descriptions that mention a generated vftable name (open findings). Known open finding shared with C09 (generated vftable in a signature).",
     'technique': 'Lean 4 proof (termination measure over rounds; fold inversion lemmas) + differential correspondence + independent graph oracle',
 }
 CLAIMS['C18'] = {
@@ -222,8 +222,9 @@ CLAIMS['C19'] = {
              "are both accepted and the new module's path is unrelated (not a prefix of any old module path or `use`), every old module's emitted file is "
              "identical, the file list grows by exactly the new module's file, and every old registry entry is preserved; the new module may import and embed "
              "old types. Refute.added_module_registry_weak_refuted: without the condition on module paths the statement is FALSE (adding the parent module "
-             "`a` with a type `b` rebinds `b` inside module a::b) – replayed on the implementation and recorded as an open finding. With vftable blocks the "
-             "frame statement is decided on the implementation per run: accepted worlds are changed only outside what the observed module reaches (new "
+             "`a` with a type `b` rebinds `b` inside module a::b) – replayed on the implementation and recorded as an open finding. The same theorems are proved WITH vftable blocks under CaseNoGenRefs "
+             "(Props/C19FrameVft.lean: added_module_frame_vft, _tight_vft, _files_vft, _o3_vft, _registry_vft; the added module may derive from old types and have "
+             "its own vftable block). On every run the frame statement is also decided on the implementation: accepted worlds are changed only outside what the observed module reaches (new "
              "modules with decoy names, unreferenced types, edits and removals of unreachable items) and the observed file must stay "
              "byte-identical."),
     'note': COMMON_NOTE + "the end-to-end frame theorem is proved for the vftable-free fragment and for a module APPENDED to the case (module order independence is part of C09); removal / edits of unreachable items are decided per run only; reachability in the oracle uses unique names per world.",
